@@ -616,6 +616,7 @@ def rule_cloner(ctx, R):
         R.check(len(rets) == 1 and len(loops) >= 2 and len(loops) == len(headers), "C13-R2", key + "|shape", "copy loops and one exit",
                 "Clone::clone has %d fully copying returning paths and %d loop bodies over %d loops; expected one exit after all copy loops (a slot loop and at least one dense loop)" % (len(rets), len(loops), len(headers)), where_of(f), fn=f.key)
         if len(rets) != 1:
+            R.fail("C12-R6", key + "|clone-keeps-every-slot", "Clone::clone has no single returning path that ran a slot loop over 0..capacity and a dense loop over 0..len: it cannot be established that the clone receives every slot next to the source's len (a clone whose slot array is only partly carried over reports a len() its handles do not add up to)", where_of(f), fn=f.key)
             continue
         rp = rets[0]
         ret = N(rp.ret)
